@@ -19,7 +19,7 @@ def run(ctx) -> None:
         "map, the operand splitter is ',' not followed by [^(]*')' (unbounded), the operand token excludes blank "
         "and '#'. NOT decided: that every operand objdump prints falls in the intended class.")
     ctx.assumptions += ["operands have the AT&T forms listed by the property", "re.search/re.split semantics"]
-    ctx.analysed_fn("OperandsParser._process_operand_elem", "OperandsParser.form_full_operand_with_4_elements",
+    ctx.analysed_fn("OperandsParser.parse (one operand)", "OperandsParser.form_full_operand_with_4_elements",
                     "OperandsParser.form_full_operand_with_3_elements", "OperandsParser.form_full_operand_with_1_element",
                     "OperandsParser.parse_operands", "LineParser.get_splitted_operands", "LineParser.parse_instruction")
     # S: decided on token templates (every instantiation at once): the normal form of each operand form of the property,
